@@ -53,6 +53,7 @@ def sample_view(world, result, probes, mode):
         "world": w,
         "mode": mode,
         "history_head": hist,
-        "losses": result["out"]["losses"],
+        "losses": result["out"].get("losses"),
+        "exception": result.get("exception"),
         "returned_c": result["out"].get("c"),
     }
